@@ -31,6 +31,7 @@ func runC05(c *mon.Ctx) {
 	types := append(append([]string{}, gen.ProtectedTypes...), gen.OtherTypes...)
 	nums := append(append([]string{}, gen.SafeNumbers...), gen.SafeFractions...)
 	nVariants := c.Scale(24, 3200)
+	nth := 0
 	for _, ver := range versions {
 		t := ref.Traits(string(ver))
 		if t == nil {
@@ -46,6 +47,20 @@ func runC05(c *mon.Ctx) {
 				var lookalikes []string
 				if k%4 == 2 {
 					lookalikes = gen.AddFoldVariantKeys(r, ev, typ)
+				}
+				nth++
+				if nth%5 == 3 {
+					// one protected top-level member with the value null: kept, with that value (tenth seeding round, C05-U:
+					// a raw-JSON field type that took null for "absent" dropped it)
+					var cand []string
+					for _, key := range ref.TopLevelKeep(t.Redaction) {
+						if key != "type" && key != "content" {
+							cand = append(cand, key)
+						}
+					}
+					if len(cand) > 0 {
+						ev.Set(cand[(nth/5)%len(cand)], ref.NullV())
+					}
 				}
 				text := gen.Plain().Bytes(ev)
 				if k%3 == 1 {
